@@ -51,7 +51,7 @@ CHECKS["C04"] = dict(
    note="Inside the parseNumber jobs the converters are stubs asserting their preconditions; simd_str2int is an assumed scalar contract. Two genuine defects found by this check were repaired (known_findings.json).",
    technique="CBMC bounded model checking of the mechanically sliced parseNumber with converter preconditions as assertions (bounded stand-in) + one complete loop-free proof")
 CHECKS["C15"] = dict(
-   text="The shared x86 kernels whose contract is a deterministic function of the input (GetNonSpaceBits, GetNextToken<3|4>, StringBlock::Find + predicates, CopyAndGetEscapMask; GetStringBits frame) are proved against the same contract for the avx2 (VEC_LEN 32) and sse (VEC_LEN 16) instantiation, so their results are identical; SkipString is checked bounded (len <= 40) against one scalar oracle for both widths; sse::Xmemcpy<16|32> is checked bounded (chunks <= 5) against memcpy semantics (the avx2 bodies exhaust the solver and are NOT decided); the runtime-dispatch wrappers in x86_ifuncs/*.h are checked syntactically to be pure forwarders. SkipContainer, Quote, parseStringInplace, the DOM driver and serializer across configurations are NOT decided.",
+   text="The shared x86 kernels whose contract is a deterministic function of the input (GetNonSpaceBits, GetNextToken<3|4>, StringBlock::Find + predicates, CopyAndGetEscapMask; GetStringBits frame) are proved against the same contract for the avx2 (VEC_LEN 32) and sse (VEC_LEN 16) instantiation, so their results are identical; SkipString is checked bounded (len <= 40) against one scalar oracle for both widths; Xmemcpy<16|32> of both instantiations is checked bounded (every chunk count 0..9, case-split into constants) against one memcpy statement (bytes [0, chunks*N) copied, the next byte untouched, source unchanged); the runtime-dispatch wrappers in x86_ifuncs/*.h are checked syntactically to be pure forwarders. SkipContainer, Quote, parseStringInplace, the DOM driver and serializer across configurations are NOT decided.",
    design_ref="DESIGN.md section 5 (C15)",
    note="Trusted: intrinsic/SIMD-wrapper models for both widths, GCC's ifunc resolution and -march code generation. The forwarding check is a supporting static fact, not a proof.",
    technique="the same CBMC contracts enforced on both instantiations of the sliced kernels (complete / unbounded) + bounded oracle check + syntactic forwarding check")
